@@ -989,6 +989,25 @@ class Run:
                 if i1 < i0 or i0 < 0 or i1 > n_ + 1:
                     raise OOB(('O', oid), i1 if i1 > n_ else i0, n_, e.get('l'))
                 return ('STRV', tuple(buf[i0:i1]))
+            if oid not in self.strobjs and name == 'clone' and not e.get('a'):
+                # Array::clone(): a new array with its own copy of the elements
+                self._anon = getattr(self, '_anon', 0) + 1
+                nid = 'clone%d_%d' % (self._anon, id(self) & 0xffff)
+                self.bufs[('O', nid)] = list(self.bufs[('O', oid)])
+                self.objlen[nid] = self.objlen.get(oid, len(self.bufs[('O', oid)]))
+                return ('P', ('O', nid), 0)
+            if oid not in self.strobjs and (e.get('op') == '<<' or name in ('operator<<', 'append')) and len(e.get('a', [])) == 1:
+                v_ = self.val(e['a'][0])
+                if isinstance(v_, (int, float)):
+                    # one element appended to a modelled array
+                    buf_ = self.bufs[('O', oid)]
+                    del buf_[self.objlen.get(oid, len(buf_)):]
+                    buf_.append(v_)
+                    for k_ in list(self.bufs):
+                        if isinstance(k_, tuple) and k_[0] == 'O' and self.bufs[k_] is buf_:
+                            self.objlen[k_[1]] = len(buf_)           # every handle on this storage sees the new length
+                    return ('OBJ', oid)
+                raise Unsupported('`%s` appends something that is not a scalar' % pe(e))
             if oid not in self.strobjs and name in ('clear', 'resize') and len(e.get('a', [])) <= 1:
                 # Array object: clear() / resize(n) change the element count (new elements are zero)
                 buf = self.bufs[('O', oid)]
@@ -1104,13 +1123,33 @@ class Run:
                 self.objlen[v['id']] = 0
                 self.strobjs.add(v['id'])
                 return
+            if tv.get('recp') == 'asl::Array' and v.get('init') is not None:
+                # initialised from another modelled array: a second handle on the same elements (asl arrays share storage), or
+                # from clone(): its own copy
+                io = strip_lv(v['init'])
+                while io.get('k') in ('cast', 'temp', 'paren') or (io.get('k') == 'construct' and len(io.get('a', [])) == 1 and T(self.f, strip_lv(io['a'][0]).get('t')).get('recp') == 'asl::Array'):
+                    io = strip_lv(io['a'][0] if io.get('k') == 'construct' else io['e'])
+                src_ = None
+                if io.get('k') == 'var' and ('O', io.get('id')) in self.bufs:
+                    src_ = ('O', io['id'])
+                elif io.get('k') == 'call' and io.get('obj') is not None and self.obj_of(io) is not None:
+                    rv = self.val(io)
+                    if isinstance(rv, tuple) and rv[0] == 'P' and rv[1] in self.bufs and rv[2] == 0:
+                        src_ = rv[1]
+                    elif isinstance(rv, tuple) and rv[0] == 'OBJ':
+                        src_ = ('O', rv[1])
+                if src_ is not None:
+                    self.bufs[('O', v['id'])] = self.bufs[src_]
+                    self.objlen[v['id']] = len(self.bufs[src_])
+                    return
             if args is not None and 1 <= len(args) <= 2 and all(T(self.f, strip_lv(a).get('t')).get('int') for a in args):
                 n_ = self.val(args[-1])
                 if isinstance(n_, int) and n_ < 0:
                     raise OOB(('O', v['id']), n_, 0, v.get('l'))          # a string / array of negative length
                 if isinstance(n_, int) and 0 <= n_ < (1 << 20):
                     name = ('O', v['id'])
-                    self.bufs[name] = [0] * (n_ + (1 if tv.get('rec') == 'asl::String' else 0))
+                    # (an Array of n scalars is not initialised by its constructor; String(n, ..) buffers are written by the caller)
+                    self.bufs[name] = [0] * (n_ + 1) if tv.get('rec') == 'asl::String' else [UNINIT] * n_
                     self.objlen[v['id']] = n_
                     if tv.get('rec') == 'asl::String':
                         self.strobjs.add(v['id'])
@@ -1233,6 +1272,12 @@ class Run:
 
     def run(self):
         try:
+            # constructor: the written member initialisers of scalar members run first (`: _type(t), _len(0)`)
+            for ini in (self.f.get('inits') or []):
+                if ini.get('written') and ini.get('field') and isinstance(ini.get('e'), dict):
+                    ft = T(self.f, ini.get('ft'))
+                    if ft.get('int') or ft.get('ptr') or ft.get('flt') or ft.get('bool') or ft.get('enum'):
+                        self.mems[ini['field']] = wrap(self.val(ini['e']), ft)
             self.stmt(self.f['body'])
         except _Return as r:
             return r.v
